@@ -221,6 +221,7 @@ def run_machine(run, spec):
         else:
             bins_by_name.setdefault(cfgmod.name(c), {})[v] = b
     run.configs = [cfgmod.name(c) for c in all_cfgs]
+    if os.environ.get("VERIF_WARM"): return          # set-up: building the binaries (cached by content hash) is all that is wanted
     work = []
     for (path, s), c in zip(corpus, corpus_cfgs):
         work.append((c, s, "corpus:" + os.path.basename(path)))
